@@ -190,6 +190,34 @@ func c07Run(c *Ctx) {
 			emit("program-endings", b+e, true)
 		}
 	}
+	// 5c. diagnostics that quote source text: identifiers and expressions of every length, Latin and Bangla
+	for _, unit := range []string{"a", "\u0995", "\u09a8\u09be\u09ae", "x\u09df", "\u0995\u09cd\u09b7"} {
+		for n := 1; n <= 130; n += 1 + n/12 {
+			id := strings.Repeat(unit, n)
+			if len([]rune(id)) > 200 {
+				continue
+			}
+			for _, body := range []string{
+				Print(id), id + " = 1;", Var(id, "{k: 1}") + "\n" + Print(id+".zz"), Var(id, "{k: {j: 1}}") + "\n" + Print(id+".k."+id), Var(id, "1") + "\n" + Var(id, "2"),
+				Var(id, "{}") + "\n" + Print(id+"."+id+"."+id), Fun(id, "p", "") + "\n" + id + "();", Var(id, "5") + "\n" + id + "();", Var(id, "{m: 1}") + "\n" + BI("delete", id, `"`+id+`"`) + ";",
+				Var("o", "{}") + "\n" + Print(`o.k` + ` + "` + id + `"`), Print("({" + id + ": 1, k: \"" + id + "\"})." + id + id),
+			} {
+				emit("quoted-text-lengths", body+"\n", n%9 == 0)
+			}
+		}
+	}
+	// 5d. text read with ইনপুট that is not well-formed UTF-8 (or otherwise odd), then used in every way
+	for _, raw := range []string{"\xe0", "12\xe0", "\xe0\xa7", "5\xe0\xa7", "\xe0\xa7\xa9", "\xff", "\xc3\x28", "\x80", "\xed\xa0\x80", "\xf4\x90\x80\x80", "\x00", "7\x00", "\xef\xbb\xbf9", "1\xc2", "\xe0\xa6", "\xc0\xaf", "3 \xe0"} {
+		for _, use := range []string{"v * 1", "v - 1", "1 / v", "v % 2", "2 ** v", "v < 1", "v & 1", "1 << v", "-v", "~v", "arr[v]", BI("abs", "v"), BI("sqrt", "v"), BI("round", "v"), BI("remove", "arr", "v"), BI("max", "v", "1"), BI("pow", "v", "2"), `v + 1`, `v == "x"`, `[v]`, `{k: v}`, BI("delete", "ob", "v"), BI("input", "v"), "!v", BI("len", "v")} {
+			src := Var("arr", "[1, 2, 3]") + "\n" + Var("ob", "{k: 1}") + "\n" + Var("v", BI("input")) + "\n" + Print(use) + "\n"
+			if c.Mine() {
+				c07Judge(c, &Case{Gen: "odd-input-bytes", Src: src, Stdin: raw + "\nnext\n"})
+			}
+			if c.Mine() && hash64(raw+use)%5 == 0 {
+				c07Judge(c, &Case{Gen: "odd-input-bytes-cli", Mode: "cli", Src: src, Stdin: raw + "\nnext\n"})
+			}
+		}
+	}
 	// 6. nesting / size stress
 	depth := c.N(3000, 10000)
 	stress := []struct{ name, src string }{
@@ -228,6 +256,6 @@ func init() {
 		Assumptions: []string{"unbounded recursion is outside the property (stated there); generated recursion is bounded"},
 		Run:         c07Run,
 		Judge:       c07Judge,
-		MustCount:   func(c *Ctx) []string { return []string{"gen:operator-matrix", "gen:builtin-matrix", "gen:access-forms", "gen:index-forms", "gen:untyped-random-programs", "gen:mutated-programs", "gen:program-endings", "gen:stress-self-array-print", "exit:0", "exit:70", "cli_runs"} },
+		MustCount:   func(c *Ctx) []string { return []string{"gen:operator-matrix", "gen:builtin-matrix", "gen:access-forms", "gen:index-forms", "gen:untyped-random-programs", "gen:mutated-programs", "gen:program-endings", "gen:quoted-text-lengths", "gen:odd-input-bytes", "gen:stress-self-array-print", "exit:0", "exit:70", "cli_runs"} },
 	})
 }
